@@ -270,7 +270,8 @@ def r17e(ctx):
                 n += 1
                 from ..astx import resolve_local
                 vals = r.value.values if isinstance(r.value, ast.BoolOp) and isinstance(r.value.op, ast.Or) else []
-                vals = [resolve_local(f.node, v) for v in vals]
+                from ..astx import inline_self_call
+                vals = [inline_self_call(m, q, resolve_local(f.node, v)) for v in vals]
                 ok = any(any(isinstance(c_, ast.Compare) and any(e in ast.unparse(c_) for e in entry) for c_ in ast.walk(v)) for v in vals)
                 if ok:
                     ctx.proved("R17e", f.file, "IterativeTighteningSearch.tighten_bounds", r, "goal reports progress",
